@@ -15,10 +15,12 @@
    [fl] = F-connect-lost repaired (connect() re-checks for DISCONNECTED before it releases the lock),
    [fd] = F-serial-drain-leak repaired (the serial `_connect_impl` closes the port it has just opened when the
    configuration write / drain raises).
-   The theorems are about [fe = fc = fl = fd = true]; the refutations for the code as it was use [false].
+   [fg] = close() has NO idempotence guard (the code as it is: a second close() closes the link and cancels the tasks
+   again); [fg = false] models the variant `if self._state == State.CLOSED: return` at the top of close().
+   The theorems are about [fe = fc = fl = fd = fg = true]; the refutations use [false].
 
    Not modelled: `_seed_network_map` (only runs with build_network_map=True; it is a sequence of
-   sleeps and `send`s, and `send` IS modelled), more than one `close()` call, the number of frames a
+   sleeps and `send`s, and `send` IS modelled), the number of frames a
    `send` still has to write (a suspended drain may be followed by another), cancellation of
    `connect`/`send`/`close` tasks by the application, a status/receive callback that swallows
    CancelledError. *)
@@ -66,19 +68,21 @@ Record g := mkG {
   q : Z;                         (* queue.qsize() *)
   buf : Z; eof : bool; rexc : bool;   (* self.reader: buffered bytes, feed_eof() seen, set_exception() seen *)
   send_drain : nat; send_cb : nat;    (* send() coroutines suspended in drain / in the status callback *)
-  closing : cpc;
+  closing : cpc;                 (* the FIRST close() call *)
+  c2_rx : nat; c2_cons : nat;    (* further close() calls asleep after cancelling the receive task / the queue consumer *)
+  closes_done : nat;             (* ghost: number of close() calls that have returned *)
   n0 : nat;                      (* ghost: next_w when close() was called *)
   trace : list cst               (* arguments of the status callback, newest first *)
 }.
 #[export] Instance eta_g : Settable _ := settable! mkG
   <st; lock; hold; pending_connects; writer; next_w; closed_w; drainfail_w; attempts; rx; rx_creq; old_creq;
-   old_live; cons; cons_creq; q; buf; eof; rexc; send_drain; send_cb; closing; n0; trace>.
+   old_live; cons; cons_creq; q; buf; eof; rexc; send_drain; send_cb; closing; c2_rx; c2_cons; closes_done; n0; trace>.
 
 Definition init : g :=
   {| st := Disc; lock := false; hold := HNone; pending_connects := 0; writer := None; next_w := 0;
      closed_w := []; drainfail_w := []; attempts := 0; rx := RNone; rx_creq := false; old_creq := 0;
      old_live := 0; cons := CNew; cons_creq := false; q := 0; buf := 0; eof := false; rexc := false;
-     send_drain := 0; send_cb := 0; closing := KNone; n0 := 0; trace := [] |}.
+     send_drain := 0; send_cb := 0; closing := KNone; c2_rx := 0; c2_cons := 0; closes_done := 0; n0 := 0; trace := [] |}.
 
 Inductive act :=
 | AUserConnect                 (* the application: create_task(client.connect()) *)
@@ -92,7 +96,9 @@ Inductive act :=
 | AConsStart | AConsGot (o : rcout) | AConsCbDone | AConsCancelled
 | ASendEntry (o : sendout) | ASendDrainDone (o : sendout) | ASendCbDone
 | AClose (cb : cbout) | ACloseCbDone | ACloseTimer
-| AEnvFeed (n : Z) | AEnvEof | AEnvReset.
+| AEnvFeed (n : Z) | AEnvEof | AEnvReset
+| AClose2Entry                 (* a further close() call (the state is CLOSED already: no status callback) runs up to its first sleep / return *)
+| AClose2Timer (rxphase : bool). (* its 10 ms sleep after cancelling the receive task (true) / the queue consumer (false) is over *)
 
 (* ---- tenacity.wait_exponential(multiplier=0.5, max=10) in units of 0.5 s (exact) ----
      try:    exp = 2 ** (attempt_number - 1); result = 0.5 * exp      # int -> float conversion
@@ -204,8 +210,12 @@ Definition send_out (x : g) (o : sendout) : option g :=
   end.
 
 (* close(): from `if self.writer: self.writer.close()` on *)
+Definition close_returned (x : g) : g := x <| closes_done := S (closes_done x) |>.
 Definition close_cons (x : g) : g :=
-  if cons_alive x then x <| cons_creq := true |> <| closing := KSleepCons |> else x <| closing := KDone |>.
+  if cons_alive x then x <| cons_creq := true |> <| closing := KSleepCons |> else close_returned (x <| closing := KDone |>).
+(* a further close() call: the consumer part *)
+Definition close2_cons (x : g) : g :=
+  if cons_alive x then x <| cons_creq := true |> <| c2_cons := S (c2_cons x) |> else close_returned x.
 Definition close_rest (x : g) : g :=
   let y := close_cur_writer x in
   if rx_alive y then y <| rx_creq := true |> <| closing := KSleepRx |> else close_cons y.
@@ -222,7 +232,7 @@ Definition allowed (x : g) (a : act) : bool :=
 
 Section Model.
 Variable k : kind.
-Variables fe fc fl fd : bool.
+Variables fe fc fl fd fg : bool.
 
 Definition trans (x : g) (a : act) : option g :=
   if negb (allowed x a) then None else
@@ -338,7 +348,7 @@ Definition trans (x : g) (a : act) : option g :=
       match closing x with
       | KSleepRx =>       (* FIFO: the cancelled task was scheduled before this timer could fire *)
           if negb (rx_creq x) && (old_creq x =? 0)%nat then Some (close_cons x) else None
-      | KSleepCons => if negb (cons_creq x) then Some (x <| closing := KDone |>) else None
+      | KSleepCons => if negb (cons_creq x) then Some (close_returned (x <| closing := KDone |>)) else None
       | _ => None
       end
   | AEnvFeed n =>
@@ -348,6 +358,25 @@ Definition trans (x : g) (a : act) : option g :=
       end
   | AEnvEof => match writer x with Some _ => if eof x then None else Some (x <| eof := true |>) | None => None end
   | AEnvReset => match writer x with Some _ => if rexc x then None else Some (x <| rexc := true |>) | None => None end
+  | AClose2Entry =>
+      match closing x with
+      | KNone => None              (* the first call to run is AClose *)
+      | _ =>
+        if fg then
+          let y := close_cur_writer x in
+          if rx_alive y then Some (y <| rx_creq := true |> <| c2_rx := S (c2_rx y) |>) else Some (close2_cons y)
+        else Some (close_returned x)      (* variant: `if self._state == State.CLOSED: return` *)
+      end
+  | AClose2Timer true =>
+      match c2_rx x with
+      | O => None
+      | S n => if negb (rx_creq x) && (old_creq x =? 0)%nat then Some (close2_cons (x <| c2_rx := n |>)) else None
+      end
+  | AClose2Timer false =>
+      match c2_cons x with
+      | O => None
+      | S n => if negb (cons_creq x) then Some (close_returned (x <| c2_cons := n |>)) else None
+      end
   end.
 
 Fixpoint run (x : g) (ls : list act) : option g :=
